@@ -11,6 +11,12 @@ CLAIMED = {
  "C18": ("Coq theorems for every n and every a<b: midpoint and trapezoid (weights sum to b-a, positive, nodes strictly increasing inside [a,b], exact for degree 0 and 1), Simpson (n=2m+1: weights positive, sum b-a, exact through degree 3 by telescoping panel sums), Gauss-Legendre affine map (transfers exactness as a Riemann-integral identity via Coquelicot RInt_comp_lin; weight sum/positivity/order preserved). Same model runs in binary64 against integration.quadrature for all five rules (Clenshaw-Curtis through a direct inverse DFT). Partial: Waldvogel FFT identity for Clenshaw-Curtis and numpy leggauss are oracles validated numerically by exact moments; spawn-stack tensor product checked against the implementation (theorem in C10).",
          "trusts: Coq kernel/vm_compute; real-number axioms (+classic via Coquelicot); FloatFun.v; tolerance 2^-43*scale; leggauss / FFT identity as oracles",
          "Coq proof (induction over n, closed sums, Coquelicot RInt) on hand-written model + float correspondence", "DESIGN.md §3 C18"),
+ "C01": ("Coq theorems on Model/Hop.v over lists of any length: an accepted hop satisfies KE'+E_target = KE+E_source exactly for any dimension, any positive masses, any state count; a rejected hop returns state and velocity unchanged; velocity Verlet is exactly time-reversible for any force field and any number of steps; on the harmonic oscillator the shadow energy m v^2/2+k x^2/2-(dt^2/8)(k^2/m)x^2 is exactly conserved (an O(dt^2) bound uniform in time). The same terms run in binary64 against hop_to_it of TrajectorySH/TrajectoryCum/AugmentedFSSH/even-sampling children, advance_position/advance_velocity of TrajectorySH and AdiabaticMD, kinetic_energy. Partial: the O(dt^2) drift bound for a general smooth potential is not mechanised (drift ratio measured on real runs as supporting evidence).",
+         "trusts: Coq kernel/vm_compute; real-number axioms; FloatFun.v; tolerance 2^-36 (+2^-44/sqrt(margin)) on the velocity scale; knife-edge exclusion below 2^-40 relative margin (exact dyadic ties still checked)",
+         "Coq proof (list induction + field/nra) on hand-written model + float correspondence", "DESIGN.md §3 C01"),
+ "C04": ("Coq theorems: acceptance rule (downward always; upward iff (v.u)^2/(2 sum u_i^2/m_i) > gap), momentum change m_i(v'_i-v_i)=s u_i along the direction only, the selected root has the least modulus among all energy-conserving kicks, rejected hop untouched, and for the event-emitting loop over any number of steps: changes of the active column = hop events (same index/from/to), one frustrated event per rejection, no others. Hop level runs in binary64 against the four hopping classes; trajectory level replays the observed hopper decisions of real FSSH/cumulative/A-FSSH runs (2-, 3-, 8-state models, both trace back-ends) through the Coq event model and compares with the active column and the event log.",
+         "trusts: Coq kernel/vm_compute; real-number axioms; harness wrappers around hopper/hop_allowed; tolerance as C01",
+         "Coq proof (nra/field; induction over the step list) on hand-written model + correspondence", "DESIGN.md §3 C04"),
 }
 NOT_YET = "check not built yet in this commit (work in progress; see DESIGN.md §3 for the planned proof)"
 
